@@ -132,6 +132,17 @@ class Interp:
             return None
         return self.prog.type(node_or_key)
 
+    def ref_fields(self):
+        rf = getattr(self, '_ref_fields', None)
+        if rf is None:
+            rf = set()
+            for r in self.prog.records.values():
+                for f in r['fields']:
+                    if self.prog.type(f['t']).get('k') == 'ref':
+                        rf.add(r['q'] + '::' + f['n'])
+            self._ref_fields = rf
+        return rf
+
     def elem_size_hint(self, node):
         """Element size of the array a (void*-converted) pointer argument points into."""
         n = node
@@ -920,13 +931,19 @@ class Interp:
             else:
                 outs = self.lv(base, st, fr)
             res = []
+            isref = (n['rec'] + '::' + n['m']) in self.ref_fields()
             for s, l in outs:
                 if l is None:
                     res.append((s, None))
                 elif n.get('anon'):
                     res.append((s, l))
                 else:
-                    res.append((s, (l[0], l[1] + (n['rec'] + '::' + n['m'],))))
+                    fl = (l[0], l[1] + (n['rec'] + '::' + n['m'],))
+                    if isref:
+                        pv = s.mem.get(fl)
+                        res.append((s, self.deref(s, pv, n) if pv is not None else (('ext', 'reffield:' + n['m']), ())))
+                    else:
+                        res.append((s, fl))
             return res
         if k == 'ArraySubscriptExpr':
             res = []
